@@ -60,6 +60,10 @@ func (s *S3Proxy) getConfig(ctx context.Context, access, secret string) (aws.Con
 		// TLS (trailing checksum), and failed PutObject / UploadPart on
 		// plain http endpoints. Only add checksums when required.
 		config.WithRequestChecksumCalculation(aws.RequestChecksumCalculationWhenRequired),
+		// Do not ask the endpoint for object checksums (checksum mode) on
+		// behalf of clients that did not: the frontend forwards the
+		// checksum mode of the client request.
+		config.WithResponseChecksumValidation(aws.ResponseChecksumValidationWhenRequired),
 	}
 
 	if s.disableChecksum {
